@@ -1,3 +1,6 @@
+pub mod c03;
 pub mod c05;
+pub mod c09;
 pub mod c14;
 pub mod c15;
+pub mod common;
